@@ -126,13 +126,15 @@ class OperatorTemplate(AbstractBaseTemplate):
     def apply(self, return_key=False, values: dict = None):
         """Returns the non-editable but unique, cashed definition of the operator."""
 
-        # key for global operator cache is the frozen list of equation strings.
+        # the operator is labelled by its name; the global cache of applied operators is keyed by name AND content, so
+        # that a different operator that merely carries the same name never inherits equations or default values
         key = self.name
+        cache_key = (self.name, tuple(self.equations), repr(sorted((k, repr(v)) for k, v in self.variables.items())))
         if values is None:
             values = {}
 
         try:
-            instance, default_values = self.cache[key]
+            instance, default_values = self.cache[cache_key]
 
             for vname, value in default_values.items():
                 if vname not in values:
@@ -171,7 +173,7 @@ class OperatorTemplate(AbstractBaseTemplate):
             equations = self.equations
             instance = self.target_ir(equations=equations, variables=variables, inputs=inputs, output=output,
                                       template=self)
-            self.cache[key] = (instance, default_values)
+            self.cache[cache_key] = (instance, default_values)
 
         if return_key:
             return instance, values, key
